@@ -96,6 +96,7 @@ def c16(ctx: Ctx) -> None:
     ctx.rule('C16-TA8', 'an exception of the source escapes the producer (so that the consumer re-raises it); nothing in the producer swallows it', 2)
     ctx.rule('C16-TA9', 'the consumer loop is left only through the sentinel test; dequeues block without a timeout', 2)
     ctx.rule('C16-TA10', 'a caller-supplied event loop is not closed or stopped by the bridge', 1)
+    ctx.rule('C16-TA12', 'a hand-off queue fed with put_nowait is unbounded', 1)
     ctx.rule('C16-TA11', 'the sync bridge\'s worker runs the producer coroutine with run_until_complete on the given loop or a new one (never None)', 1)
     sent = _sentinel(p)
     if sent is None:
@@ -220,6 +221,23 @@ def c16(ctx: Ctx) -> None:
                               'thread-safe queue.Queue between the loop thread and the plain consumer',
                               'the hand-off queue is not a thread-safe FIFO shared with the consumer',
                               construct=construct_key(pr.qualname, 'hand-off'))
+        # TA12: a hand-off that cannot wait (put_nowait) needs a queue that is never full
+        qctors = [d.meta['value'] for d in g.nodes if d.kind == 'store_name' and d.meta['name'] == qvar
+                  and isinstance(d.meta.get('value'), ast.Call) and g.res.path(d.meta['value'].func) in ('asyncio.Queue', 'queue.Queue', 'queue.SimpleQueue')]
+        for qc in qctors:
+            cap = qc.args[0] if qc.args else next((k.value for k in qc.keywords if k.arg == 'maxsize'), None)
+            capv = resolve(g, next(d for d in g.nodes if d.kind == 'store_name' and d.meta.get('value') is qc), cap) if cap is not None else None
+            if isinstance(capv, ast.UnaryOp) and isinstance(capv.op, ast.USub) and isinstance(capv.operand, ast.Constant):
+                unbounded = True
+            else:
+                unbounded = cap is None or (isinstance(capv, ast.Constant) and isinstance(capv.value, (int, float)) and capv.value <= 0)
+            nowait = any(isinstance(x, ast.Attribute) and x.attr == 'put_nowait' for pr_ in [f] + [q_ for q_ in prods if q_ in ext_prods]
+                         for x in ast.walk(pr_.node))
+            ctx.check('C16-TA12', f'{f.qualname}: hand-off queue {norm(qc)}', f'{A}:{qc.lineno}', unbounded or not nowait,
+                      'unbounded: a put that cannot wait never finds it full' if unbounded else 'bounded, but every put waits for room',
+                      'the queue is bounded and the producer hands elements over with put_nowait: when the consumer falls behind, '
+                      'QueueFull is raised where nobody sees it (a loop callback) - elements and the end marker are lost, the consumer hangs',
+                      construct=construct_key(f.qualname, 'bounded hand-off queue'))
         # TA3
         fut = [n for n in g.nodes if n.kind == 'store_name' and isinstance(n.meta.get('value'), ast.Call)
                and isinstance(n.meta['value'].func, ast.Attribute) and n.meta['value'].func.attr in ('run_in_executor', 'submit')]
@@ -541,6 +559,27 @@ def c17(ctx: Ctx) -> None:
                   lockname is not None and is_lock and w is None and bool(probes),
                   'double-checked creation: one lock per loop', 'two threads can create two different locks for one loop',
                   witness=render(gg, w or None), construct=construct_key('_get_loop_lock', 'creation race'))
+    # who may remove an entry: nothing but the finalizer registered at creation (the loop object is gone then)
+    tables_ = {s.ast.value.id for s in stores}
+    n_rm = 0
+    for fsc in u_.functions():
+        for x in own_nodes(fsc.node):
+            rm = None
+            if isinstance(x, ast.Call) and isinstance(x.func, ast.Attribute) and isinstance(x.func.value, ast.Name) \
+                    and x.func.value.id in tables_ and x.func.attr in ('pop', 'popitem', 'clear') \
+                    and fsc.binding_scope(x.func.value.id) is u_.module_scope:
+                rm = x
+            elif isinstance(x, ast.Delete) and any(isinstance(t_, ast.Subscript) and isinstance(t_.value, ast.Name) and t_.value.id in tables_
+                                                  and fsc.binding_scope(t_.value.id) is u_.module_scope for t_ in x.targets):
+                rm = x
+            if rm is not None:
+                n_rm += 1
+                ctx.violation('C17-R3', f'{fsc.qualname}: {norm(rm)}', f'{A}:{rm.lineno}',
+                              'a per-loop lock is removed from the table while its loop may still be in use: threads queued on the old lock '
+                              'and a caller that creates a new one run the same loop at once',
+                              construct=construct_key(fsc.qualname, 'lock table entry removed', rm))
+    if not n_rm:
+        ctx.holds('C17-R3', 'entries of the lock table are removed by the loop finalizer only', f'{A}:{gl.lineno}')
     subs = {norm(resolve(gg, n, n.ast.slice)) for n in gg.nodes if n.kind in ('load_sub', 'store_sub')}
     ctx.check('C17-R3', f'table key {sorted(subs)} = id(<loop argument>)', f'{A}:{gl.lineno}',
               subs == {f'id({gl.params[0]})'}, 'one entry per loop object', 'the lock is not keyed by the loop',
@@ -829,6 +868,8 @@ def c18(ctx: Ctx) -> None:
     ctx.rule('C18-R3', 'the results are compress(a, c) and compress(b, map(not_, c\')) on sibling tee copies; first = truthy', 2)
     ctx.rule('C18-R4', 'no eager consumption inside split', 2)
     ctx.rule('C18-R5', 'exhaust consumes its argument completely and returns nothing', 1)
+    ctx.rule('C18-R6', 'split and its helpers never close, throw into or send to an iterator', 1)
+    ctx.rule('C18-R7', 'no bare next() can leak StopIteration out of a generator used by split', 1)
     f = p.func(IT, 'split')
     where = f'{IT}:{f.lineno}'
     src, cond = f.params[0], f.params[1]
@@ -886,6 +927,52 @@ def c18(ctx: Ctx) -> None:
             why = f'neg={neg} first_neg={first_neg} sibling data={sib_data} sibling cond={sib_cond} data from source={data_from_src} cond ok={cond_ok}'
         ctx.check('C18-R3', f'{inst}: returns {ret!r}'[:200], where, ok3, 'complementary selectors on sibling copies, truthy side first',
                   f'the two results are not a partition of one stream ({why})', construct=construct_key('split', 'selectors', sorted(facts.items())))
+    # R6 / R7 over split and the module helpers it (transitively) names
+    uI = p.unit(IT)
+    mod_funcs = {c.name: c for c in uI.module_scope.children if c.kind == 'function'}
+    reach_: List = [f]
+    seen_ = {f.qualname}
+    i_ = 0
+    while i_ < len(reach_):
+        for x in ast.walk(reach_[i_].node):
+            if isinstance(x, ast.Name) and x.id in mod_funcs and mod_funcs[x.id].qualname not in seen_:
+                seen_.add(mod_funcs[x.id].qualname)
+                reach_.append(mod_funcs[x.id])
+        i_ += 1
+    FORBID = {'close', 'throw', 'send', 'aclose', 'athrow', 'asend'}
+    n6 = 0
+    for sc in reach_:
+        for x in ast.walk(sc.node):
+            hit = None
+            if isinstance(x, ast.Attribute) and x.attr in FORBID:
+                hit = x
+            elif isinstance(x, ast.Call) and isinstance(x.func, ast.Name) and x.func.id == 'getattr' and len(x.args) >= 2 \
+                    and isinstance(x.args[1], ast.Constant) and x.args[1].value in FORBID:
+                hit = x
+            if hit is not None:
+                n6 += 1
+                ctx.violation('C18-R6', f'{sc.qualname}: {norm(hit)}', f'{IT}:{hit.lineno}',
+                              'split (or a helper of it) closes / throws into an iterator: the two results share one source, finishing or '
+                              'dropping one of them ends the other early', construct=construct_key(sc.qualname, 'closes an iterator', hit))
+    if not n6:
+        ctx.holds('C18-R6', f'{[sc.qualname for sc in reach_]}: iterators are only iterated', where, examined=len(reach_))
+    n7 = 0
+    for sc in reach_:
+        if not sc.is_generator:
+            continue
+        gsc = build(sc, p)
+        for n in gsc.nodes:
+            if n.kind == 'call' and gsc.res.path(n.ast.func) in ('builtins.next', 'next') and len(n.ast.args) == 1 and not n.ast.keywords:
+                ee = [e for e in gsc.succ[n.id] if e.label == 'exc' and (not e.classes or 'StopIteration' in e.classes)]
+                w7 = find_path(gsc, [], [gsc.raise_exit], start_edges=ee) if ee else None
+                n7 += 1
+                ctx.check('C18-R7', f'{sc.qualname}: {norm(n.ast)}', gsc.loc(n), w7 is None,
+                          'the StopIteration of an exhausted stream is handled inside the generator',
+                          'next() without a default inside a generator: when that stream ends first, StopIteration becomes '
+                          'RuntimeError (PEP 479) instead of a clean end of both results', witness=render(gsc, w7),
+                          construct=construct_key(sc.qualname, 'bare next in a generator'))
+    if not n7:
+        ctx.holds('C18-R7', 'no generator among split and its helpers calls next() without a default', where, examined=len(reach_))
     # R5
     ex = p.func(IT, 'exhaust')
     ge = build(ex, p)
@@ -1175,6 +1262,15 @@ def c19(ctx: Ctx) -> None:
                   'handler covers Exception and returns the input', 'a parser failure escapes (or the value is lost)', witness=render(gt, w),
                   construct=construct_key(tryp.qualname, 'parse failure'))
     rets = [n for n in gt.nodes if n.kind == 'return']
+    # the value handed to the parser and the value returned on failure are the *argument*, not something derived from it
+    from ..dataflow import rdefs as _rdefs19
+    for n_ in pcalls + [r_ for r_ in rets if r_.ast.value is not None and norm(r_.ast.value) == xp]:
+        ds_ = _rdefs19(gt).reaching(n_, xp)
+        rebound = [d_ for d_ in (ds_ or []) if d_ is not None]
+        what_ = 'argument of the parser' if n_ in pcalls else 'value returned when parsing fails'
+        ctx.check('C19-R4', f'{tryp.name}: {xp} at {norm(n_.ast)[:60]} is the caller\'s value ({what_})', gt.loc(n_), not rebound,
+                  'the parameter is never re-bound', f'{xp} was re-assigned at {[gt.loc(d_) for d_ in rebound]}: an unparsable string comes back changed '
+                  '(or the parser sees something other than the text)', construct=construct_key(tryp.qualname, 'parameter re-bound', what_))
     def _ret_ok(r_: Node) -> bool:
         v = r_.ast.value
         if v is None:
